@@ -283,3 +283,100 @@ Proof.
 Qed.
 
 End GraphRoundTrip.
+
+(* ---------------------------------------------------------------- a printed domain triple has no newline byte *)
+Section NoNewline.
+Variable O : oracles.
+Hypothesis Q : quote_laws O.
+
+Lemma in_app3 : forall (A : Type) (x : A) a b c, In x (a ++ b ++ c) -> In x a \/ In x b \/ In x c.
+Proof. intros A x a b c H. apply in_app_or in H. destruct H as [H|H]; [auto|]. apply in_app_or in H. tauto. Qed.
+
+Lemma type_ok_no_nl : forall t, type_ok t = true -> ~ In x0a t.
+Proof.
+  intros t H Hin. unfold type_ok in H. apply andb_true_iff in H. destruct H as [H _]. apply andb_true_iff in H. destruct H as [H _].
+  apply negb_true_iff in H.
+  assert (X : existsb (fun c => memb c [x20; x09; x0a; x0d]) t = true) by (apply existsb_exists; exists x0a; split; [exact Hin | reflexivity]).
+  congruence.
+Qed.
+
+Lemma print_node_no_nl : forall n, wf_node n = true -> no_nl (nid n) = true -> ~ In x0a (print_node n).
+Proof.
+  intros n Hw Hid Hin. unfold wf_node in Hw. apply andb_true_iff in Hw. destruct Hw as [Ht _].
+  unfold print_node in Hin. apply in_app_or in Hin. destruct Hin as [Hin|Hin]; [exact (type_ok_no_nl _ Ht Hin)|].
+  apply in_app3 in Hin. destruct Hin as [Hin|[Hin|Hin]].
+  - destruct Hin as [Hin|[]]. discriminate.
+  - unfold no_nl in Hid. apply negb_true_iff in Hid. apply memb_false in Hid. exact (Hid Hin).
+  - destruct Hin as [Hin|[]]. discriminate.
+Qed.
+
+Lemma print_pred_no_nl : forall p, gdom_pred O p -> ~ In x0a (print_pred O p).
+Proof.
+  intros p Hd Hin. unfold print_pred in Hin. apply in_app_or in Hin. destruct Hin as [Hin|Hin]; [exact (law_quote_nl O Q _ Hin)|].
+  apply in_app3 in Hin. destruct Hin as [Hin|[Hin|Hin]].
+  - destruct Hin as [Hin|[Hin|[]]]; discriminate.
+  - revert Hin. apply (anchor_text_no O p x0a Hd). reflexivity.
+  - destruct Hin as [Hin|[]]. discriminate.
+Qed.
+
+Lemma fmt_int_no_nl : forall z, ~ In x0a (fmt_int z).
+Proof.
+  intros z H. unfold fmt_int in H. destruct (Z.to_int z) as [d|d].
+  - apply uint_to_bytes_digits in H. cbn in H. lia.
+  - destruct H as [H|H]; [discriminate|]. apply uint_to_bytes_digits in H. cbn in H. lia.
+Qed.
+
+Lemma join_no : forall c sep l, ~ In c sep -> (forall x, In x l -> ~ In c x) -> ~ In c (join sep l).
+Proof.
+  intros c sep l Hs. induction l as [|a l IH]; intros Hl Hin; [destruct Hin|].
+  destruct l as [|b l]; cbn [join] in Hin.
+  - exact (Hl a (or_introl eq_refl) Hin).
+  - apply in_app3 in Hin. destruct Hin as [Hin|[Hin|Hin]].
+    + exact (Hl a (or_introl eq_refl) Hin).
+    + exact (Hs Hin).
+    + apply IH; [intros x Hx; apply Hl; right; exact Hx | exact Hin].
+Qed.
+
+Lemma print_literal_no_nl : forall l, gdom_literal O l -> match l with LText s => no_nl s = true | _ => True end ->
+  ~ In x0a (print_literal O l).
+Proof.
+  intros l Hd Hs Hin. unfold print_literal in Hin. apply in_app3 in Hin. destruct Hin as [Hin|[Hin|Hin]].
+  - destruct Hin as [Hin|[]]. discriminate.
+  - destruct l as [b|z|b|s|bs]; cbn [print_lit_value] in Hin.
+    + destruct b; apply memb_In in Hin; discriminate.
+    + exact (fmt_int_no_nl _ Hin).
+    + destruct Hd as [_ [_ Hn]]. exact (Hn Hin).
+    + unfold no_nl in Hs. apply negb_true_iff in Hs. apply memb_false in Hs. exact (Hs Hin).
+    + apply in_app3 in Hin. destruct Hin as [Hin|[Hin|Hin]].
+      * destruct Hin as [Hin|[]]. discriminate.
+      * revert Hin. apply join_no; [intros [X|[]]; discriminate|].
+        intros x Hx Hc. apply in_map_iff in Hx. destruct Hx as [y [Hy _]]. subst x.
+        unfold fmt_uint8 in Hc. apply uint_to_bytes_digits in Hc. cbn in Hc. lia.
+      * destruct Hin as [Hin|[]]. discriminate.
+  - apply in_app_or in Hin. destruct Hin as [Hin|Hin].
+    + apply memb_In in Hin. discriminate.
+    + destruct l; apply memb_In in Hin; discriminate.
+Qed.
+
+Lemma print_object_no_nl : forall o, gdom_object O o -> line_safe_object o = true -> ~ In x0a (print_object O o).
+Proof.
+  intros o Hd Hs. destruct o as [n|p|l|]; cbn [print_object gdom_object line_safe_object] in *.
+  - unfold dom_node in Hd. apply andb_true_iff in Hd. destruct Hd as [Hw _]. apply print_node_no_nl; assumption.
+  - apply print_pred_no_nl. exact Hd.
+  - apply print_literal_no_nl; [exact Hd|]. destruct l; try exact I. exact Hs.
+  - contradiction.
+Qed.
+
+Lemma print_triple_no_nl : forall t, gdom_triple O t -> no_nl (nid (subj t)) = true -> line_safe_object (tobj t) = true ->
+  ~ In x0a (print_triple O t).
+Proof.
+  intros t [Hs [_ [Hp Ho]]] Hid Hls Hin. unfold print_triple in Hin.
+  apply in_app_or in Hin. destruct Hin as [Hin|Hin].
+  - unfold dom_node in Hs. apply andb_true_iff in Hs. destruct Hs as [Hw _]. exact (print_node_no_nl _ Hw Hid Hin).
+  - apply in_app_or in Hin. destruct Hin as [Hin|Hin]; [destruct Hin as [Hin|[]]; discriminate|].
+    apply in_app_or in Hin. destruct Hin as [Hin|Hin]; [exact (print_pred_no_nl _ Hp Hin)|].
+    apply in_app_or in Hin. destruct Hin as [Hin|Hin]; [destruct Hin as [Hin|[]]; discriminate|].
+    exact (print_object_no_nl _ Ho Hls Hin).
+Qed.
+
+End NoNewline.
